@@ -616,7 +616,7 @@ def record_history(kind, ops, root, rnd, nkills):
                 return
             d = os.path.join(snapdir, str(k))
             os.mkdir(d)
-            for suf in ("", "-wal"):
+            for suf in ("", "-wal", "-journal"):
                 if os.path.exists(real_dbp + suf):
                     shutil.copyfile(real_dbp + suf, os.path.join(d, "c.db" + suf))
             st = None
